@@ -105,3 +105,68 @@ func alphaRename(repo, outDir, mode string) error {
 	fmt.Println("renamed", n, "identifier occurrences")
 	return nil
 }
+
+// probeInsert writes a copy of the vgirpc package in which every block of every
+// function starts with a call that does nothing observable (`println()` with no
+// arguments writes a newline to stderr; it stands in for a log line). It is the
+// second robustness experiment: an added statement must not change any verdict.
+func probeInsert(repo string) error {
+	env := append(os.Environ(), "PATH=/opt/veriftools/go1.26.8/bin:"+os.Getenv("PATH"), "GOWORK=off", "GOFLAGS=-mod=mod", "GOPROXY=off", "GOSUMDB=off", "GOTOOLCHAIN=local")
+	cfg := &packages.Config{Mode: packages.LoadSyntax, Dir: repo, Env: env}
+	pkgs, err := packages.Load(cfg, modPath+"/vgirpc")
+	if err != nil {
+		return err
+	}
+	if len(pkgs) != 1 || len(pkgs[0].Errors) > 0 {
+		return fmt.Errorf("load: %v", pkgs[0].Errors)
+	}
+	p := pkgs[0]
+	probe := func() ast.Stmt {
+		return &ast.ExprStmt{X: &ast.CallExpr{Fun: ast.NewIdent("println")}}
+	}
+	n := 0
+	for i, f := range p.Syntax {
+		name := p.CompiledGoFiles[i]
+		if !strings.HasSuffix(name, ".go") || strings.Contains(name, "go-build") {
+			continue
+		}
+		ast.Inspect(f, func(nd ast.Node) bool {
+			switch x := nd.(type) {
+			case *ast.FuncDecl:
+				if x.Body != nil {
+					x.Body.List = append([]ast.Stmt{probe()}, x.Body.List...)
+					n++
+				}
+			case *ast.FuncLit:
+				x.Body.List = append([]ast.Stmt{probe()}, x.Body.List...)
+				n++
+			case *ast.IfStmt:
+				x.Body.List = append([]ast.Stmt{probe()}, x.Body.List...)
+				n++
+			case *ast.ForStmt:
+				x.Body.List = append([]ast.Stmt{probe()}, x.Body.List...)
+				n++
+			case *ast.RangeStmt:
+				x.Body.List = append([]ast.Stmt{probe()}, x.Body.List...)
+				n++
+			case *ast.CaseClause:
+				x.Body = append([]ast.Stmt{probe()}, x.Body...)
+				n++
+			}
+			return true
+		})
+		rel, err := filepath.Rel(repo, name)
+		if err != nil {
+			return err
+		}
+		var buf bytes.Buffer
+		if err := format.Node(&buf, p.Fset, f); err != nil {
+			return err
+		}
+		if err := os.WriteFile(filepath.Join(repo, rel), buf.Bytes(), 0o644); err != nil {
+			return err
+		}
+	}
+	fmt.Println("inserted", n, "probe statements")
+	return nil
+}
